@@ -23,11 +23,11 @@ M = [
  ("C05-bitstring-unused", "cdr/asn/ber_unmarshal.go", "r.BitLength = uint64((len(bytes)-1)*8 - int(bytes[0]))", "r.BitLength = uint64((len(bytes)-1)*8 - int(bytes[0]&6))", ["C05"]),
  ("C05-seq-skip-current", "cdr/asn/ber_unmarshal.go", "\t\t\t\tcurrent++\n\t\t\t}\n\t\t} else {", "\t\t\t\tcurrent += 1 + current/6\n\t\t\t}\n\t\t} else {", ["C05"]),
  ("C16-no-length-bound", "cdr/asn/ber_unmarshal.go", "\t\tif off+n > len(bytes) {", "\t\tif off+n > len(bytes)+1 {", ["C16"]),
- ("C16-ge", "cdr/asn/ber_unmarshal.go", "\tif int64(talOff)+tal.len > int64(len(bytes)) {\n\t\treturn fmt.Errorf(\"type value out of range\")\n\t}\n\n\t// An explicit", "\tif int64(talOff)+tal.len > int64(len(bytes))+1 {\n\t\treturn fmt.Errorf(\"type value out of range\")\n\t}\n\n\t// An explicit", ["C16"]),
+ ("C16-ge", "cdr/asn/ber_unmarshal.go", "\tif int64(talOff)+tal.len > int64(len(bytes)) {\n\t\treturn fmt.Errorf(\"type value out of range\")\n\t}\n", "\tif int64(talOff)+tal.len > int64(len(bytes))+1 {\n\t\treturn fmt.Errorf(\"type value out of range\")\n\t}\n", ["C16"]),
  ("C14-record-ext-offset", "cdr/cdrFile/cdrFile.go", "\t\t\tcdrHeader.ReleaseIdentifierExtension = data[tail+4]\n\t\t\ti++\n", "\t\t\tcdrHeader.ReleaseIdentifierExtension = data[tail+4]\n", ["C14"]),
  ("C15-sign-bit", "cdr/cdrFile/cdrFile.go", "uint32(cdrf.FileOpeningTimestamp.SignOfTheLocalTimeDifferentialFromUtc)<<11 |", "uint32(cdrf.FileOpeningTimestamp.SignOfTheLocalTimeDifferentialFromUtc)<<12 |", ["C15", "C14"]),
  ("C15-ext-order", "cdr/cdrFile/cdrFile.go", None, None, ["C15"]),
- ("C10-no-counter", "internal/sbi/processor/converged_charging.go", "chargingSessionId = ueId + consumerId + \"-\" + strconv.Itoa(int(recordSeq))", "chargingSessionId = ueId + consumerId + \"-\" + strconv.Itoa(int(recordSeq%7))", ["C10"]),
+ ("C10-no-counter", "internal/sbi/processor/converged_charging.go", "chargingSessionId = ueId + \"-\" + consumerId + \"-\" + strconv.Itoa(int(recordSeq))", "chargingSessionId = ueId + \"-\" + consumerId + \"-\" + strconv.Itoa(int(recordSeq%7))", ["C10"]),
  ("C11-no-requestedunit-check", "internal/sbi/processor/converged_charging.go", "\t\tif unitUsage.RequestedUnit != nil {\n\t\t\tcontinue\n\t\t}\n", "\t\tif unitUsage.RequestedUnit != nil || len(unitUsage.UsedUnitContainer) > 1 {\n\t\t\tcontinue\n\t\t}\n", ["C11"]),
  ("C11-create-lock-leak", "internal/sbi/processor/converged_charging.go", "\terr = p.UpdateCDR(cdr, chargingData)\n\tif err != nil {\n\t\t// Lock in line 158\n\t\tue.CULock.Unlock()\n", "\terr = p.UpdateCDR(cdr, chargingData)\n\tif err != nil || len(chargingData.MultipleUnitUsage) > 2 {\n\t\t// Lock in line 158\n", ["C11", "C01"]),
  ("C12-notify-twice", "internal/sbi/processor/converged_charging.go", "\tp.SendChargingNotification(notifyUri, notifyRequest)\n", "\tp.SendChargingNotification(notifyUri, notifyRequest)\n\tif rg == 3 {\n\t\tp.SendChargingNotification(notifyUri, notifyRequest)\n\t}\n", ["C12"]),
